@@ -1,6 +1,8 @@
 // C04 correspondence runner: drives the REAL confirmation guards of the six paths and the real
 // BTC scan loop and reports which block numbers were handed to processing (HandleEvents /
-// ProcessDeposits / GetBlockHash arguments).  Heights, heads and confirmations are unbounded integers
+// ProcessDeposits / GetBlockHash arguments).  Several evaluations at once - message batches, scripted
+// and free-running concurrent schedules on one handler, ranges with several retry events, receipts
+// decoded from RPC-style JSON - are in multi.go (drivers) and gen_multi.go (generators).  Heights, heads and confirmations are unbounded integers
 // in the cases; each path gets exactly the values its Go types can hold (see inDomain).
 package main
 
@@ -64,6 +66,16 @@ type Case struct {
 	Start *Int    `json:"start,omitempty"` // Hist: nil = nil start block
 	Heads []int64 `json:"heads,omitempty"`
 	Ops   []SeqOp `json:"ops,omitempty"` // Seq: guard evaluations on long-lived, conf-sharing objects
+	// Multi: several evaluations on one set of long-lived objects; mode batch | sched | free; sched =
+	// the script: each entry lets that evaluation run up to its next RPC call (or its end)
+	Mode  string  `json:"mode,omitempty"`
+	Evals []MEval `json:"evals,omitempty"`
+	Sched []int   `json:"sched,omitempty"`
+	// SubBatch: the Retry events (height, destination domain) of one range; Head = finalized head
+	Blks  []Int `json:"blks,omitempty"`
+	Dests []int `json:"dests,omitempty"`
+	// TxBatch: the RetryV1 events of one range
+	Txs []TxEv `json:"txs,omitempty"`
 }
 
 type SeqOp struct {
@@ -81,6 +93,8 @@ type Obs struct {
 	Blocks []Int     `json:"blocks"`
 	Hist   []Handled `json:"hist,omitempty"`
 	Seq    [][]Int   `json:"seq,omitempty"`
+	Multi  [][]Int   `json:"multi,omitempty"`
+	Logs   [][]int   `json:"logs,omitempty"` // TxBatch: per event the logs whose deposits became messages
 }
 
 // ---- fakes -----------------------------------------------------------------------------------
@@ -283,6 +297,12 @@ func run(c Case) Obs {
 		return Obs{Blocks: blocksOf(got), Hist: got}
 	case "Seq":
 		return Obs{Blocks: []Int{}, Seq: runSeq(c)}
+	case "Multi":
+		return Obs{Blocks: []Int{}, Multi: runMulti(c)}
+	case "SubBatch":
+		return Obs{Blocks: runSubBatch(c)}
+	case "TxBatch":
+		return Obs{Blocks: []Int{}, Logs: runTxBatch(c)}
 	case "EvmRetryTx":
 		l := evmevents.NewListener(&evmClient{latest: c.Head.v(), rblk: c.Blk.v()})
 		_, err := l.FetchRetryDepositEvents(evmevents.RetryV1Event{TxHash: "0x01"}, common.Address{}, c.Conf.v())
@@ -682,6 +702,9 @@ func gen(r *vgen.Rng, tier string) []Case {
 		}
 		out = append(out, Case{Path: "Seq", Conf: Int{conf}, Ops: ops})
 	}
+	out = append(out, genMulti(r, tier)...)
+	out = append(out, genSubBatch(r, tier)...)
+	out = append(out, genTxBatch(r, tier)...)
 	return out
 }
 
@@ -701,6 +724,23 @@ func coq(c Case, o Obs) string {
 			return "(" + o.Path + ", " + zi(o.Head) + ", " + zi(o.Blk) + ")"
 		}) + " " + vgen.ListOf(o.Seq, func(b []Int) string { return vgen.ListOf(b, zi) })
 	}
+	if c.Path == "Multi" {
+		mode := map[string]string{"batch": "0%N", "sched": "1%N", "free": "2%N"}[c.Mode]
+		return "Multi " + mode + " " + zi(c.Conf) + " " + vgen.ListOf(c.Evals, func(e MEval) string {
+			return "(" + e.Path + ", " + optZ(e.Head) + ", " + optZ(e.Blk) + ")"
+		}) + " " + vgen.ListOf(o.Multi, func(b []Int) string { return vgen.ListOf(b, zi) })
+	}
+	if c.Path == "SubBatch" {
+		return "Batch SubRetryEvt " + zi(c.Head) + " 0 " + vgen.ListOf(c.Blks, zi) + " " + vgen.ListOf(o.Blocks, zi)
+	}
+	if c.Path == "TxBatch" {
+		return "TxBatch " + zi(c.Conf) + " " + vgen.ListOf(c.Txs, func(e TxEv) string {
+			return "(" + vgen.Bool(e.Status == 1) + ", " + optZ(e.Head) + ", " + optZ(e.RBlk) + ", " +
+				vgen.ListOf(e.Logs, func(l TxLog) string { return "(" + vgen.Bool(l.Mine) + ", " + optZ(l.Blk) + ")" }) + ")"
+		}) + " " + vgen.ListOf(o.Logs, func(b []int) string {
+			return vgen.ListOf(b, func(i int) string { return vgen.N(uint64(i)) })
+		})
+	}
 	return "Single " + c.Path + " " + zi(c.Head) + " " + zi(c.Blk) + " " + zi(c.Conf) + " " + vgen.ListOf(o.Blocks, zi)
 }
 
@@ -717,13 +757,27 @@ func main() {
 		Gen:       gen,
 		Run:       run,
 		Coq:       coq,
-		Kind:      func(c Case) string { return c.Path },
+		Kind: func(c Case) string {
+			if c.Path == "Multi" {
+				return "Multi-" + c.Mode
+			}
+			return c.Path
+		},
 		NonTrivial: func(c Case, o Obs) bool {
 			if c.Path == "Hist" {
 				return len(o.Hist) > 0
 			}
 			if c.Path == "Seq" {
 				return len(c.Ops) >= 2
+			}
+			if c.Path == "Multi" {
+				return multiNonTrivial(c)
+			}
+			if c.Path == "SubBatch" {
+				return len(c.Blks) >= 2
+			}
+			if c.Path == "TxBatch" {
+				return len(c.Txs) >= 2 || (len(c.Txs) == 1 && (len(c.Txs[0].Logs) >= 2 || c.Txs[0].RBlk == nil || c.Txs[0].Head == nil))
 			}
 			head, blk, conf := c.Head.v(), c.Blk.v(), c.Conf.v()
 			if near(head, blk, conf) {
@@ -736,6 +790,6 @@ func main() {
 			}
 			return false
 		},
-		Rule: "for each of the 6 guards: boundary grid (head-blk-conf in -3..3) x conf x base height, the same boundary with the height at 2^k-1, 2^k, 2^k+1 for k in 31,32,53,63,64,127,128, alias grid (height / head / confirmations shifted by a multiple of 2^31, 2^32, 2^63, 2^64 from a boundary value), sign grid (negative heights, heads, confirmations), random triples from a mixture of magnitudes - all restricted to exactly the values the Go types of the path can hold (BTC heads int64, Substrate finalized heads uint32, Substrate retry-event height u128, everything else unbounded big.Int); plus random head histories for the real BTC scan loop (also just below 2^31, 2^32, 2^53, 2^63 and with confirmations beyond the widths), plus random sequences of guard evaluations on long-lived handler objects that share the configured confirmation depth as app.go wires them; observed: the block numbers handed to HandleEvents / ProcessDeposits / GetBlockHash; distinct = distinct input JSON; non-trivial = within 3 blocks of the acceptance boundary (also after reducing the values modulo 2^31, 2^32, 2^63 or 2^64), or a history in which at least one block is handled",
+		Rule: "for each of the 6 guards: boundary grid (head-blk-conf in -3..3) x conf x base height, the same boundary with the height at 2^k-1, 2^k, 2^k+1 for k in 31,32,53,63,64,127,128, alias grid (height / head / confirmations shifted by a multiple of 2^31, 2^32, 2^63, 2^64 from a boundary value), sign grid (negative heights, heads, confirmations), random triples from a mixture of magnitudes - all restricted to exactly the values the Go types of the path can hold (BTC heads int64, Substrate finalized heads uint32, Substrate retry-event height u128, everything else unbounded big.Int); plus random head histories for the real BTC scan loop (also just below 2^31, 2^32, 2^53, 2^63 and with confirmations beyond the widths), plus random sequences of guard evaluations on long-lived handler objects that share the configured confirmation depth as app.go wires them; plus several evaluations at once (Multi: all six paths on one set of long-lived conf-sharing objects, per evaluation its own head - batch = one goroutine as relayer.route handles a message batch, sched = one goroutine per evaluation under a scripted interleaving in which the fake RPC clients park every call (grid: for every path A takes 1..4 steps, B runs from start to end, A goes on, and strictly alternating, on the pairs too-new/old, old/too-new, too-new/just-accepted; random scripts for 2..4 evaluations), free = free-running goroutines; unknown values: receipt without block number, head request answered without number, heads and heights 0 / negative), SubBatch (the real substrate RetryEventHandler on every range of 1..3 Retry events over the heights head-1..head+2 at finalized heads 0, 1, 100 and random ranges of 1..5 events with repeated heights, several destination domains and heights beyond 2^32 / 2^64; observed: the blocks whose deposits reached the message channel), TxBatch (the real EVM RetryV1EventHandler + events.Listener on ranges of 1..4 RetryV1 events, the same transaction named repeatedly, receipts decoded from RPC-style JSON: blockNumber null / 0 / around the boundary, no logs, several logs, foreign logs, logs whose blockNumber is null, 0 or disagrees with the receipt, status 0, head request without number; observed: the logs whose deposits reached the message channel); observed otherwise: the block numbers handed to HandleEvents / ProcessDeposits / GetBlockHash; distinct = distinct input JSON; non-trivial = within 3 blocks of the acceptance boundary (also after reducing the values modulo 2^31, 2^32, 2^63 or 2^64), a history in which at least one block is handled, two or more evaluations / events, or an unknown value",
 	})
 }
